@@ -265,6 +265,25 @@ Definition durations_b (x : state) : bool :=
                  | _, _ => true end
       | Err _ => true end) (indexed O (j_ops jb))) (indexed O (s_jobs x)).
 
+(* C07 over whole runs: an operation that has started did not start earlier than its predecessor's end plus the
+   (deterministic) travel time between the two machines *)
+Fixpoint gap_ops (ops : list op) : bool :=
+  match ops with
+  | a :: r =>
+      match r with
+      | b :: _ =>
+          (match travel_lookup (i_travel i) (PM (o_mach a)) (PM (o_mach b)) with
+           | Some (Det c) => if is_ostate OIdle b then true
+                             else match o_end a, o_start b with
+                                  | Time e, Time s => e + c <=? s
+                                  | _, _ => false end
+           | _ => true end) && gap_ops r
+      | [] => true
+      end
+  | [] => true
+  end.
+Definition travel_gap_b (x : state) : bool := forallb (fun jb => gap_ops (j_ops jb)) (s_jobs x).
+
 (* no AGV waits on a TimeDependency (hypothesis on the initial state of the theorems of SMP/ProvBatch.v; an
    invariant of instances whose machine post-buffers are unordered) *)
 Definition nodep_b (x : state) : bool :=
@@ -274,8 +293,8 @@ Definition nodep_b (x : state) : bool :=
 Definition clause_vector (x : state) : list bool :=
   [ placement_b x; loc_b x; mach_hold_b x; agv_hold_b x; claims_b x; capacity_b x; flags_b x;
     feasible_b x; no_overdue_b x; past_b x; busy_op_b x; proc_inner_b x; output_done_b x;
-    outages_b x; outage_nonneg_b x; agv_phase_b x; idle_unclaimed_b x; sto_ok_b x; fresh_b x; agv_load_b x; fresh2_b x; nodep_b x; durations_b x ].
+    outages_b x; outage_nonneg_b x; agv_phase_b x; idle_unclaimed_b x; sto_ok_b x; fresh_b x; agv_load_b x; fresh2_b x; nodep_b x; durations_b x; travel_gap_b x ].
 
 End WithInst.
 
-Definition clause_names : list nat := seq0 23.
+Definition clause_names : list nat := seq0 24.
